@@ -33,33 +33,36 @@ Proof.
   - injection H as <-. cbn [map last]. unfold path_delay. cbn [map total]. rewrite N.add_0_r. reflexivity.
 Qed.
 
-Theorem delivered_once_to_far_owner gs sender g x t :
+(* [h] is the header the message object carries when it is handed to send: fresh,
+   or whatever a previous leg stamped on it.  The delivered header names [cur],
+   the module that performed THIS send. *)
+Theorem delivered_once_to_far_owner gs h cur g x t :
   Inv gs -> lookup gs g = Some x -> kind_of x <> Transit ->
   exists p, path_iter gs g = Some (Some p) /\
     let far := last (map endpoint p) g in
-    buf_send_at gs sender g t =
+    buf_send_at gs h cur g t =
     SDelivered {| d_to := owner_of gs far; d_time := t + path_delay p;
-                  d_sender := sender; d_receiver := owner_of gs far; d_last := far |}.
+                  d_sender := cur; d_receiver := owner_of gs far; d_last := far |}.
 Proof.
   intros HI L K. destruct (path_iter_total _ _ _ HI L K) as [p HP]. exists p. split; [exact HP|].
   destruct (path_iter_inv _ _ _ HP) as [x' [L' [_ Hw]]]. symmetry in Hw.
-  cbn zeta. unfold buf_send_at. rewrite L.
+  cbn zeta. unfold buf_send_at. cbn zeta. rewrite L.
   apply kind_not_transit in K. assert (Nat.ltb 1 (len x) = false) as -> by (apply Nat.ltb_ge; lia).
   rewrite (hws_walk _ _ _ _ Hw). reflexivity.
 Qed.
 
 (* the same chain in the other direction: the far end is an endpoint whose
    chain ends at g, with the same total delay *)
-Theorem both_directions gs sender g p t :
+Theorem both_directions gs h cur g p t :
   Inv gs -> path_iter gs g = Some (Some p) ->
   let far := last (map endpoint p) g in
-  buf_send_at gs sender far t =
+  buf_send_at gs h cur far t =
   SDelivered {| d_to := owner_of gs g; d_time := t + path_delay p;
-                d_sender := sender; d_receiver := owner_of gs g; d_last := g |}.
+                d_sender := cur; d_receiver := owner_of gs g; d_last := g |}.
 Proof.
   intros HI HP far. destruct (mirror _ _ _ HI HP) as [q [HQ [Eq Cq]]]. fold far in HQ.
   destruct (path_iter_inv _ _ _ HQ) as [y [Ly [Ky Hw]]]. symmetry in Hw.
-  unfold buf_send_at. rewrite Ly.
+  unfold buf_send_at. cbn zeta. rewrite Ly.
   apply kind_not_transit in Ky. assert (Nat.ltb 1 (len y) = false) as -> by (apply Nat.ltb_ge; lia).
   rewrite (hws_walk _ _ _ _ Hw). cbn [new_unchecked endpoint].
   assert (Hl : forall d, last (map endpoint q) d = last (tl (rev (g :: map endpoint p))) d) by (intros d; rewrite Eq; reflexivity).
@@ -72,21 +75,82 @@ Proof.
   rewrite Hg. reflexivity.
 Qed.
 
-(* ---- scripts: every send of a script is answered by exactly one record ---- *)
-Theorem script_deliveries owners ops k g t d x :
-  let gs := sgates (fst (exec (init owners) ops)) in
-  nth_error (sends_of gs ops) k = Some (g, t, d) ->
-  lookup gs g = Some x -> kind_of x <> Transit ->
-  length (map (send_one gs) (sends_of gs ops)) = length (sends_of gs ops) /\
-  exists p, path_iter gs g = Some (Some p) /\
-    let far := last (map endpoint p) g in
-    nth_error (map (send_one gs) (sends_of gs ops)) k =
-    Some (SDelivered {| d_to := owner_of gs far; d_time := t + d + path_delay p;
-                        d_sender := owner_of gs g; d_receiver := owner_of gs far; d_last := far |}).
+(* ---- relayed messages: the header clause holds on every leg ---- *)
+(* whatever header the object carried before, a delivery names the module that sent this leg *)
+Lemma buf_send_at_hdr gs h cur g t d :
+  buf_send_at gs h cur g t = SDelivered d -> d_sender d = cur /\ d_receiver d = d_to d.
 Proof.
-  intros gs Hk L K. split; [apply map_length|].
+  unfold buf_send_at. cbn zeta. destruct (lookup gs g) as [x|]; [|discriminate].
+  destruct (Nat.ltb 1 (len x)); [discriminate|].
+  destruct (handle_with_sink (fuel_of gs) gs (new_unchecked g) t g) as [[[o t'] l]|]; [|discriminate].
+  intros H. injection H as <-. split; reflexivity.
+Qed.
+
+(* [cur] performs the first send of the list; each later leg is sent by the
+   module that received the previous one; only the last leg may fail *)
+Fixpoint chain_ok (cur : N) (l : list (N * sres)) : Prop :=
+  match l with
+  | [] => True
+  | (_, SDelivered d) :: r => d_sender d = cur /\ d_receiver d = d_to d /\ chain_ok (d_to d) r
+  | (_, _) :: r => r = []
+  end.
+
+Theorem legs_sender_chain b gs rules h cur g t leg : chain_ok cur (legs b gs rules h cur g t leg).
+Proof.
+  revert h cur g t leg; induction b as [|b IH]; intros h cur g t leg; cbn [legs chain_ok];
+    destruct (buf_send_at gs h cur g t) as [d| |] eqn:E; try reflexivity.
+  - destruct (buf_send_at_hdr _ _ _ _ _ _ E) as [H1 H2]. repeat split; assumption.
+  - destruct (buf_send_at_hdr _ _ _ _ _ _ E) as [H1 H2]. split; [exact H1|]. split; [exact H2|].
+    destruct (find_rule rules (d_last d)) as [[g' dl]|]; [apply IH|exact I].
+Qed.
+
+(* every leg is one application of buf_send_at to the received object, on the
+   gate and after the delay the forwarding rule names *)
+Lemma legs_unfold b gs rules h cur g t leg :
+  legs b gs rules h cur g t leg =
+  (leg, buf_send_at gs h cur g t) ::
+  match buf_send_at gs h cur g t, b with
+  | SDelivered d, S b' =>
+      match find_rule rules (d_last d) with
+      | Some (g', dl) => legs b' gs rules (hdr_of d) (d_to d) g' (d_time d + dl) (leg + 1)
+      | None => []
+      end
+  | _, _ => []
+  end.
+Proof. destruct b; reflexivity. Qed.
+
+Lemma legs_length b gs rules h cur g t leg : (1 <= length (legs b gs rules h cur g t leg) <= b + 1)%nat.
+Proof.
+  revert h cur g t leg; induction b as [|b IH]; intros h cur g t leg; cbn [legs length].
+  - destruct (buf_send_at gs h cur g t); cbn [length]; lia.
+  - destruct (buf_send_at gs h cur g t) as [d| |]; cbn [length]; try lia.
+    destruct (find_rule rules (d_last d)) as [[g' dl]|]; cbn [length]; [|lia].
+    specialize (IH (hdr_of d) (d_to d) g' (d_time d + dl) (leg + 1)). lia.
+Qed.
+
+(* ---- scripts: every send of a script is answered by exactly one list of legs ---- *)
+Theorem script_deliveries owners ops k g t d b x :
+  let gs := sgates (fst (exec (init owners) ops)) in
+  let rules := rules_of gs ops in
+  nth_error (sends_of gs ops) k = Some (g, t, d, b) ->
+  lookup gs g = Some x -> kind_of x <> Transit ->
+  length (map (send_one gs rules) (sends_of gs ops)) = length (sends_of gs ops) /\
+  exists p rest, path_iter gs g = Some (Some p) /\
+    let far := last (map endpoint p) g in
+    nth_error (map (send_one gs rules) (sends_of gs ops)) k =
+    Some ((0, SDelivered {| d_to := owner_of gs far; d_time := t + d + path_delay p;
+                            d_sender := owner_of gs g; d_receiver := owner_of gs far; d_last := far |}) :: rest) /\
+    chain_ok (owner_of gs far) rest /\ (length rest <= N.to_nat b)%nat.
+Proof.
+  intros gs rules Hk L K. split; [apply map_length|].
   pose proof (inv_reachable owners ops) as HI. fold gs in HI.
-  destruct (delivered_once_to_far_owner gs (owner_of gs g) g x (t + d) HI L K) as [p [HP HB]].
-  exists p. split; [exact HP|]. cbn zeta in *.
-  rewrite (map_nth_error _ _ _ Hk). unfold send_one. rewrite HB. reflexivity.
+  destruct (delivered_once_to_far_owner gs fresh_header (owner_of gs g) g x (t + d) HI L K) as [p [HP HB]].
+  cbn zeta in HB.
+  pose proof (legs_sender_chain (N.to_nat b) gs rules fresh_header (owner_of gs g) g (t + d) 0) as HC.
+  pose proof (legs_length (N.to_nat b) gs rules fresh_header (owner_of gs g) g (t + d) 0) as HL.
+  rewrite legs_unfold in HC, HL. rewrite HB in HC, HL.
+  exists p. eexists. split; [exact HP|]. cbn zeta.
+  rewrite (map_nth_error _ _ _ Hk). unfold send_one. rewrite legs_unfold, HB.
+  split; [reflexivity|]. cbn [chain_ok] in HC. cbn [length] in HL.
+  split; [destruct HC as [_ [_ HC]]; exact HC|lia].
 Qed.
